@@ -678,6 +678,10 @@ class Messenger(Connection):
             self._logger.debug('RX remain %d octets', len(self.__rx_buf))
 
             self.recv_message(pkt)
+            if self.get_app_socket() is None:
+                # closed by the handler, what else was read is void
+                self.__rx_buf = b''
+                return
 
         # the buffer has drained only now, after the last handler returned
         self._check_sess_term()
